@@ -535,12 +535,16 @@ func (s *Sim) AdvertWire(w int) []byte {
 		panic("harness: ReadInterest: " + err.Error())
 	}
 	var reply enc.Wire
-	nd.R.VerifAdvertDataOnInterest(ndn.InterestHandlerArgs{Interest: interest, Reply: func(wire enc.Wire) error {
+	// the fetch arrives on a face of its own: when both ends of a link dial each other (connection-oriented
+	// faces) a neighbour's Sync Interests and its advertisement fetches come in on different faces, and the
+	// face recorded for the neighbour is the one of its Sync Interests
+	inFace := uint64(900 + w)
+	nd.R.VerifAdvertDataOnInterest(ndn.InterestHandlerArgs{Interest: interest, IncomingFaceId: &inFace, Reply: func(wire enc.Wire) error {
 		reply = wire
 		return nil
 	}})
 	if reply == nil {
-		panic("harness: advertDataOnInterest did not reply")
+		return nil // no answer: the fetch will time out
 	}
 	data, _, err := sp.ReadData(enc.NewWireReader(reply))
 	if err != nil {
@@ -555,6 +559,11 @@ func (s *Sim) AdvertWire(w int) []byte {
 // ReplyAdvert answers an advertisement fetch of router u with the given content through the REAL
 // Express callback (advertDataHandler: sequence check, ns.Advert = ..., go ribUpdate).
 func (s *Sim) ReplyAdvert(p Pending, content []byte) {
+	if content == nil { // the router asked did not answer
+		p.Cb(ndn.ExpressCallbackArgs{Result: ndn.InterestResultTimeout})
+		s.Settle()
+		return
+	}
 	sp := spec.Spec{}
 	ed, err := sp.MakeData(p.Name, &ndn.DataConfig{ContentType: utils.IdPtr(ndn.ContentTypeBlob),
 		Freshness: utils.IdPtr(10 * time.Second)}, enc.Wire{content}, security.NewSha256Signer())
